@@ -448,7 +448,19 @@ def install_wrapper_stubs(E, ctx, R, my, opts):
                 return a[1]
             return VStub('dict.setdefault', setdefault)
         if isinstance(o, Obj) and o in ctx.tables and name == 'pop':
-            raise Unsupported('events.pop', node)
+            def pop(E_, a, k):
+                """dict.pop(key[, default]): removes WHATEVER marker is there (no ownership test)"""
+                key_ok(a[0], node)
+                access('events.pop(key)')
+                s = R.cur()
+                if E.branch(s.m_has):
+                    r = VTuple([VVal(s.m_loop), Obj('AEvent', dict(ident=s.m_ev))])
+                    R.set(m_has=z3.BoolVal(False))
+                    return r
+                if len(a) > 1:
+                    return a[1]
+                E.throw('KeyError', origin='no-marker')
+            return VStub('dict.pop', pop)
         if isinstance(o, VVal) and o.t.sort() == LoopS:
             if name == 'is_running':
                 def fn(E_, a, k):
@@ -944,6 +956,9 @@ def hooks_for_loop(E, R, my, opts, me):
             opts.pop('marker_read', None)
 
         def step():
+            # a back-edge ends a segment of the caller's own steps: whatever it changed since the last interference
+            # point must be a declared action, like everywhere else
+            R.point('thread', 'loop back-edge')
             # C05 "no spinning": a back-edge must be preceded by a suspended wait, or by having seen the
             # marker's loop CLOSED (permanent, so the next locked block takes over)
             pend = opts.pop('own_cancel_pending_at_foreign_cancel', None)
